@@ -44,7 +44,9 @@ struct SlabEngine : Engine {
 	// footprint
 	std::map<uint64_t, int64_t> live_cls, peak_cls, slabs_cls;
 	static std::map<std::pair<int, uint64_t>, int64_t> bps_cache;
-	static std::map<std::pair<int, uint64_t>, int64_t> slab_pages_cache; // numUsedPages() delta of one slab of a class (measured)
+	static std::map<std::pair<int, uint64_t>, int64_t> slab_pages_cache;
+	static std::map<int, uint64_t> max_small_cache; // largest small-object size (measured)
+	int calib_unmaps = 0; // numUsedPages() delta of one slab of a class (measured)
 	bool calibrating = false; uint64_t calib_top = 0; int calib_maps = 0;
 	// fault learning for C04 derive()
 	std::vector<std::pair<int, int>> map_sites; // (index into plan.ops, j)
@@ -311,7 +313,7 @@ struct SlabEngine : Engine {
 	}
 
 	void do_unmap(uintptr_t base, size_t len) {
-		if (calibrating) return;
+		if (calibrating) { calib_unmaps++; return; }
 		int me = cur_task();
 		Cur &c = cur[me];
 		sync_hook();
@@ -403,7 +405,7 @@ struct SlabEngine : Engine {
 		profile = p.profile; single = p.ntasks == 1; cur_plan = &p; calibrating = false;
 		granule = p.knob("granule", 0) != 0 && policy_info[resolve_pc(p)].poison; if (granule) probe(P_granule_runs);
 		faultfree = true; for (auto &o : p.ops) if (o.mapfail & ~NORETRY) faultfree = false;
-		max_small = class_size(pi.num_buckets - 1);
+		{ auto it = max_small_cache.find(pc); max_small = it != max_small_cache.end() && it->second ? it->second : class_size(pi.num_buckets - 1); }
 		if (!pshadow) { pshadow = (uint8_t *)mmap(nullptr, arena_size, PROT_READ | PROT_WRITE, MAP_PRIVATE | MAP_ANONYMOUS | MAP_NORESERVE, -1, 0); }
 		policy_base = (size_t)16 << 20; policy_top = arena_size - (1 << 20);
 		regions.clear(); unmapped_hist.clear(); live_by_addr.clear(); map_sites.clear();
@@ -422,19 +424,34 @@ struct SlabEngine : Engine {
 		return -1;
 	}
 	void calibrate_all() {
-		// runs natively (no simulation active is required for spinlock pools): allocate until the second map
+		// Runs the real pool natively (no simulation active), once per policy: the size classes, the small/large threshold,
+		// the number of blocks per slab and the page count of a slab are MEASURED from behaviour, never computed from the
+		// pool's private constants, so that a tree with a different (but correct) size-class scheme is judged fairly.
 		if (bps_cache.count({pc, 0})) return;
 		bps_cache[{pc, 0}] = 1;
 		const SlabApi *a = &slab_api_ticket;
-		for (int i = 0; i < pi.num_buckets; i++) {
+		static char poolmem[1 << 16] __attribute__((aligned(64)));
+		// 1. discover the classes: a request is "small" if freeing its block does not give memory back to the policy
+		std::set<uint64_t> classes; uint64_t thr = 0;
+		calibrating = true; calib_top = policy_base; calib_maps = 0; calib_unmaps = 0;
+		a->construct(pc, poolmem);
+		for (size_t n = 1; n <= pi.slabsize; n = n < 8 ? 8 : (n & (n - 1)) ? (n - 1) * 2 : n + 1) { // 1, 8, 9, 16, 17, 32, 33, ...
+			void *p = a->allocate(pc, poolmem, n); if (!p) break;
+			uint64_t rep = a->get_size(pc, poolmem, p);
+			calib_unmaps = 0; a->free(pc, poolmem, p);
+			if (calib_unmaps) break; // first large request
+			classes.insert(rep); if (rep > thr) thr = rep;
+		}
+		calibrating = false;
+		max_small_cache[pc] = thr;
+		// 2. per class: blocks per slab (allocate until the second map) and the page delta of one slab
+		for (uint64_t n : classes) {
 			calibrating = true; calib_top = policy_base; calib_maps = 0;
-			static char poolmem[1 << 16] __attribute__((aligned(64)));
 			a->construct(pc, poolmem);
-			size_t n = class_size(i);
 			int64_t cnt = 0;
 			int64_t pages0 = (int64_t)a->used_pages(pc, poolmem);
-			while (true) { void *p = a->allocate(pc, poolmem, n); if (!p || calib_maps >= 2) break; if (!cnt) slab_pages_cache[{pc, (uint64_t)n}] = (int64_t)a->used_pages(pc, poolmem) - pages0; cnt++; if (cnt > (1 << 20)) break; }
-			bps_cache[{pc, (uint64_t)n}] = cnt;
+			while (true) { void *p = a->allocate(pc, poolmem, n); if (!p || calib_maps >= 2) break; if (!cnt) slab_pages_cache[{pc, n}] = (int64_t)a->used_pages(pc, poolmem) - pages0; cnt++; if (cnt > (1 << 20)) break; }
+			bps_cache[{pc, n}] = cnt;
 			calibrating = false;
 		}
 	}
@@ -959,6 +976,7 @@ struct SlabEngine : Engine {
 
 std::map<std::pair<int, uint64_t>, int64_t> SlabEngine::bps_cache;
 std::map<std::pair<int, uint64_t>, int64_t> SlabEngine::slab_pages_cache;
+std::map<int, uint64_t> SlabEngine::max_small_cache;
 
 extern "C" uint32_t simh_lock_age() { return G->calibrating ? 0 : (uint32_t)plan().knob("age", 0); }
 extern "C" uintptr_t slabh_map(size_t len, size_t align) { return G->do_map(len, align); }
